@@ -609,6 +609,17 @@ void janet_ev_init_common(void) {
 #ifndef JANET_WINDOWS
     pthread_attr_init(&janet_vm.new_thread_attr);
     pthread_attr_setdetachstate(&janet_vm.new_thread_attr, PTHREAD_CREATE_DETACHED);
+#ifdef SIGPIPE
+    /* Writing to a pipe or socket whose other end is gone should fail with EPIPE, an error the
+     * writing fiber can handle, instead of terminating the whole process (sockets already ask for
+     * this with MSG_NOSIGNAL / SO_NOSIGPIPE). Leave a handler installed by the host program alone. */
+    {
+        struct sigaction old_action;
+        if (0 == sigaction(SIGPIPE, NULL, &old_action) && old_action.sa_handler == SIG_DFL) {
+            signal(SIGPIPE, SIG_IGN);
+        }
+    }
+#endif
 #endif
 }
 
